@@ -17,6 +17,7 @@
 package frame
 
 import (
+	"bytes"
 	"io"
 
 	"github.com/go-netty/go-netty"
@@ -39,7 +40,13 @@ func (*fixedLengthCodec) CodecName() string {
 }
 
 func (f *fixedLengthCodec) HandleRead(ctx netty.InboundContext, message netty.Message) {
-	ctx.HandleRead(io.LimitReader(utils.MustToReader(message), int64(f.length)))
+	// read the whole frame so that end-of-stream and truncated frames raise an
+	// exception instead of being delivered as (empty) messages
+	frameBuffer := make([]byte, f.length)
+	n, err := io.ReadFull(utils.MustToReader(message), frameBuffer)
+	utils.AssertIf(n != len(frameBuffer) || nil != err, "read frame fail, frameLength: %d, read: %d, error: %w", len(frameBuffer), n, err)
+
+	ctx.HandleRead(bytes.NewReader(frameBuffer))
 }
 
 func (f *fixedLengthCodec) HandleWrite(ctx netty.OutboundContext, message netty.Message) {
